@@ -11,8 +11,10 @@ import (
 	"fmt"
 	"os"
 	"path/filepath"
+	"runtime"
 	"sort"
 	"strings"
+	"time"
 )
 
 type ufEntry struct {
@@ -181,6 +183,10 @@ func Unreachable(msg string) { panic(assertFailed{"reached Unreachable: " + msg}
 // ExploreSchedules turns on schedule exploration in the engine (no-op natively).
 func ExploreSchedules(on bool) {}
 
+// PreemptionBound sets the maximal number of preemptive context switches per
+// schedule under ExploreSchedules (default 2); switches forced by blocking are free.
+func PreemptionBound(n int) {}
+
 // ExpectPanic declares that a Go panic containing substr is the expected outcome.
 func ExpectPanic(substr string) {}
 
@@ -198,6 +204,15 @@ func Replace(name string, fn interface{}) {}
 
 // AllowLeak tells the engine that goroutines may remain blocked at harness end.
 func AllowLeak() {}
+
+// Quiesce lets all other goroutines run until each is blocked or finished.
+// (Natively approximated by yielding and a short sleep.)
+func Quiesce() {
+	for i := 0; i < 50; i++ {
+		runtime.Gosched()
+	}
+	time.Sleep(20 * time.Millisecond)
+}
 
 // Thorough reports the tier.
 func Thorough() bool { return thorough }
